@@ -143,7 +143,7 @@ func validateParsableTraits(enumType string, traits TraitDescs) error {
 	parsableTraitResults := make(map[string]string)
 	for _, trait := range traits {
 		if trait.Parsable {
-			for _, instance := range trait.Traits {
+			for i, instance := range trait.Traits {
 				if parseTo, ok := parsableTraitResults[instance.value]; ok {
 					if parseTo != instance.OwningValue.Name {
 						return fmt.Errorf(
@@ -151,7 +151,9 @@ func validateParsableTraits(enumType string, traits TraitDescs) error {
 								"found in %s and %s. parsableByTrait values must be unique within the enum.",
 							enumType, trait.Name, instance.value, parseTo, instance.OwningValue.Name)
 					}
-
+					// the same constant on the same enum value through another parsable trait:
+					// it is already a key of that value in the Parse switch.
+					trait.Traits[i].repeatsParseKey = true
 				}
 				parsableTraitResults[instance.value] = instance.OwningValue.Name
 			}
